@@ -12,7 +12,7 @@ LEVEL = "fault_enumeration"
 RULE = (
     "Hypothesis generates (shape, attached? (to a project holding 0-4 modules of mixed types that may have been saved before and between the edits), initial cells, history of 1..4 bulk edits through set_via_fn / set_via_gen with generated notes (fresh ones, or the pattern's own notes moved to other cells: rotation / swaps), "
     "generated yield subsets and orders, optional scribbling on the scratch array); for the last edit of every history the failure position is "
-    "enumerated completely (callable raises at call index f for every f in 0..cells; generator raises after yield j for every j in 0..yields) "
+    "enumerated completely (callable raises - an exception type drawn from a list that includes StopIteration and a BaseException subclass - at call index f for every f in 0..cells; generator raises after yield j for every j in 0..yields) "
     "when the pattern has <= 256 cells (otherwise ends, middle and a stride). distinct = (history, failure position); histories may also fail half-way at generated points before continuing on the same object, and every enumerated failure of the last edit is followed by a further successful edit; non-trivial = failure at "
     "an interior position after >= 1 successful write, or a second edit on top of a first"
 )
@@ -21,7 +21,7 @@ ASSUMPTIONS = [
     "after a failed edit the contents (cell tuples, raw_data) are claimed unchanged; identity of the internal list is not claimed",
 ]
 REQUIRED_LABELS = {
-    "quick": ["fn_success", "gen_success", "fn_fail_interior", "gen_fail_interior", "attached", "detached", "second_edit", "scribble", "failure_mid_history", "follow_up_after_failure", "project_saved_before_edit", "moved_existing_notes"],
+    "quick": ["fn_success", "gen_success", "fn_fail_interior", "gen_fail_interior", "attached", "detached", "second_edit", "scribble", "failure_mid_history", "follow_up_after_failure", "project_saved_before_edit", "moved_existing_notes", "exc_StopIteration", "exc_BoomBase"],
     "thorough": ["fn_success", "gen_success", "fn_fail_interior", "gen_fail_interior", "attached", "detached", "second_edit", "scribble"],
 }
 
@@ -64,12 +64,12 @@ def case_strategy(draw, max_tracks, max_lines):
         elif kind == "fn":
             # a small palette of cells cycled over the pattern keeps cases small and shrinkable
             palette = draw(st.lists(cell, min_size=1, max_size=5))
-            edits.append({"kind": "fn", "palette": palette, "offset": draw(st.integers(0, 7)), "fail_at": draw(st.one_of(st.none(), st.none(), st.integers(0, ncells - 1)))})
+            edits.append({"kind": "fn", "palette": palette, "offset": draw(st.integers(0, 7)), "fail_at": draw(st.one_of(st.none(), st.none(), st.integers(0, ncells - 1))), "exc": draw(st.sampled_from(sorted(EXC_TYPES)))})
         else:
             k = draw(st.integers(0, min(ncells, 12)))
             idxs = draw(st.lists(st.integers(0, ncells - 1), min_size=k, max_size=k))
             cells = draw(st.lists(cell, min_size=k, max_size=k))
-            edits.append({"kind": "gen", "yields": [[i, c] for i, c in zip(idxs, cells)], "scribble": draw(st.booleans()), "fail_at": draw(st.one_of(st.none(), st.none(), st.integers(0, k)))})
+            edits.append({"kind": "gen", "yields": [[i, c] for i, c in zip(idxs, cells)], "scribble": draw(st.booleans()), "fail_at": draw(st.one_of(st.none(), st.none(), st.integers(0, k))), "exc": draw(st.sampled_from(sorted(EXC_TYPES)))})
     kf = draw(st.integers(0, min(ncells, 4)))
     follow = {"kind": "gen", "yields": [[draw(st.integers(0, ncells - 1)), draw(cell)] for _ in range(kf)], "scribble": False, "fail_at": None}
     return {
@@ -87,6 +87,18 @@ def case_strategy(draw, max_tracks, max_lines):
 
 class Boom(Exception):
     pass
+
+
+class BoomBase(BaseException):
+    """Not an Exception subclass (like KeyboardInterrupt / GeneratorExit)."""
+
+
+# what the supplied callable may fail with: the pattern must be untouched whatever it is
+EXC_TYPES = {"Boom": Boom, "StopIteration": StopIteration, "ValueError": ValueError, "IndexError": IndexError, "KeyError": KeyError, "AttributeError": AttributeError, "RuntimeError": RuntimeError, "BoomBase": BoomBase}
+
+
+def make_exc(name, arg):
+    return EXC_TYPES.get(name or "Boom", Boom)(arg)
 
 
 def mk_note(c):
@@ -130,7 +142,7 @@ def apply_edit(pattern, edit, fail_at):
             i = calls["n"]
             calls["n"] += 1
             if fail_at is not None and i == fail_at:
-                raise Boom(i)
+                raise make_exc(edit.get("exc"), i)
             return mk_note(pal[(line * tracks + track + off) % len(pal)])
 
         expected = [pal[(k + off) % len(pal)] for k in range(tracks * lines)]
@@ -144,7 +156,7 @@ def apply_edit(pattern, edit, fail_at):
                 if edit["scribble"]:
                     new[0][0] = mk_note([1, 1, 1, 1, 1])
                     new[-1][-1].vel = 99
-                raise Boom(j)
+                raise make_exc(edit.get("exc"), j)
             yield idx // tracks, idx % tracks, mk_note(c)
         if fail_at is not None and fail_at >= len(yields):
             if edit["scribble"]:
@@ -221,7 +233,9 @@ def run_case(ctx, case, only_fail_at=None):
             prev = cells_of(pattern)
             try:
                 exp = apply_edit(pattern, e, e.get("fail_at"))
-            except Boom:
+            except (Exception, BoomBase):
+                if e.get("fail_at") is None:
+                    raise
                 exp = prev
             if cells_of(pattern) != exp:
                 raise PropertyViolation("C19.success.contents", "edit %s: cells differ from what was supplied" % e["kind"])
@@ -242,7 +256,9 @@ def run_case(ctx, case, only_fail_at=None):
             try:
                 exp = apply_edit(pattern, e, fa)
                 failed = False
-            except Boom:
+            except (Exception, BoomBase):
+                if fa is None:
+                    raise
                 failed = True
                 exp = prev_cells
                 labels.add("failure_mid_history")
@@ -277,8 +293,9 @@ def run_case(ctx, case, only_fail_at=None):
             raised = None
             try:
                 apply_edit(pattern, last, fail_at)
-            except Boom as b:
+            except (Exception, BoomBase) as b:
                 raised = b
+                labels.add("exc_" + (last.get("exc") or "Boom"))
             if raised is None:
                 raise PropertyViolation("C19.failure.propagates", "%s: exception injected at position %d did not propagate" % (last["kind"], fail_at))
             if cells_of(pattern) != before_cells or pattern.raw_data != before_raw:
